@@ -18,7 +18,7 @@ TRUSTED_BASE = [
     "extraction (ExtrOcamlBasic only) + OCaml 4.13.1 + drv_c07.ml/drv_c08.ml (hex, reading the Go trees back)",
     "harness c07.go (layout generator, tree rendering) and c08.go (FormatFile twice, re-parse, subprocess runner)",
     "Model/SynPrinter.v is printer.go (fmt's %-*s/%10s as rune-counted padding), tied by byte equality on every case",
-    "the round-trip theorem is proved for a fragment (see LEVEL_NOTE); for the remaining kinds it is sampled on every run",
+    "Model/UnicodeTables.v is unicode.IsLetter/IsDigit (the hypothesis class_ok of the round trip is discharged for these tables; tied to Go by C07's correspondence on Unicode inputs)",
 ]
 ASSUMPTIONS = ["atomic.WriteFile replaces the file or leaves it (C18's subject); the command model has no I/O errors"]
 
@@ -84,8 +84,13 @@ TECHNIQUE = ("Coq proof over hand-written Gallina models of printer.go and the p
              "directives, a function of meaning and gaps only; re-parse by context lemmas) + byte-exact model/implementation "
              "correspondence, with the executable specification (sem, gaps) evaluated on the Go parser's trees of the "
              "original and of the Go-formatted text, and a run through the knut binary")
-LEVEL_TEXT = ("see Properties/C08.v: C08_unparseable, C08_no_panic, C08_format_shape, C08_format_determined, C08_idem_of_roundtrip "
-              "at full strength; the round trip itself (C08_roundtrip) is stated in full and proved only for files without directives (C08_roundtrip_partial) and for texts already in formatted form (C08_roundtrip_on_formatted); it is "
-              "evaluated on every generated case with the Go parser on the Go formatter's output.")
-LEVEL_NOTE = ("Trusted: kernel, extraction, drivers, harness; that Model/SynPrinter.v is printer.go (byte equality on every case). "
-              "The re-parse half of the property is proved only partially; the check evaluates it on every case.")
+LEVEL_TEXT = ("see Properties/C08.v: the round trip C08_roundtrip (parse(format t) has the meaning and the gaps of parse t, every "
+              "directive kind, every byte list) and idempotence C08_idem / C08_cmd_idem at full strength under the hypothesis class_ok "
+              "on the letter/digit classification (blank, tab, CR, newline, ')' ',' '#' '*' '/' not alphanumeric, 'i' alphanumeric), "
+              "which C08_class_ok_unicode proves of Go's unicode tables: C08_roundtrip_unicode and C08_idem_unicode carry no hypothesis; "
+              "without class_ok the statement is refuted (C08_roundtrip_unrestricted_refuted); C08_unparseable, C08_cmd_total, C08_no_panic, "
+              "C08_format_shape, C08_format_determined, C08_idem_of_roundtrip, C08_no_directives_unchanged for every classification.  The round trip is "
+              "also evaluated on every generated case with the Go parser on the Go formatter's output.")
+LEVEL_NOTE = ("Trusted: kernel, extraction, drivers, harness; that Model/SynPrinter.v is printer.go and Model/Parser.v is parser.go (byte / tree "
+              "equality on every case of C08 / C07).  Proof: context lemmas of DESIGN Appendix B.3 in Proofs/RoundTrip*.v (inversion: every leaf of "
+              "a parsed tree is in its lexical class; construction: every parser function in front of its printed class; parseFile's loop over gaps).")
